@@ -3,6 +3,7 @@ package scen
 import (
 	"context"
 	"fmt"
+	"io"
 	"net/rpc"
 	"sort"
 	"strings"
@@ -118,6 +119,48 @@ func init() {
 					for g := 0; g < 3; g++ {
 						d.goIn("host", fmt.Sprintf("dispense%d", g), dispense(fmt.Sprintf("dispense%d", g)))
 					}
+				case "route-dispense":
+					// C06: Accept/Dial for two ids, one in each direction, concurrent with Dispense traffic on
+					// the same connection; each dialled connection must deliver the token of its own id
+					sb, cb := lc.rp.sb, lc.rp.cb
+					tok := func(acc, dial *plugin.MuxBroker, adom, ddom string, id uint32) {
+						x.Go(adom, safe(fmt.Sprintf("accept%d", id), func() {
+							if c, err := acc.Accept(id); err == nil {
+								c.Write([]byte{byte(id)})
+								c.Close()
+							} else if x.TimeDevs == 0 {
+								x.Fail("T", "Accept(%d): %v [mix=%s]", id, err, mix)
+							}
+						}))
+						d.goIn("host", fmt.Sprintf("route%d", id), safe(fmt.Sprintf("dial%d", id), func() {
+							ch := make(chan struct{})
+							x.Go(ddom, func() {
+								defer close(ch)
+								c, err := dial.Dial(id)
+								if err != nil {
+									if x.TimeDevs == 0 {
+										x.Fail("T", "Dial(%d): %v [mix=%s]", id, err, mix)
+									}
+									return
+								}
+								defer c.Close()
+								c.SetReadDeadline(time.Now().Add(10 * time.Second))
+								var b [1]byte
+								if _, err := io.ReadFull(c, b[:]); err != nil {
+									if x.TimeDevs == 0 {
+										x.Fail("T", "read on the connection dialled for id %d: %v [mix=%s]", id, err, mix)
+									}
+								} else if uint32(b[0]) != id {
+									x.Fail("S", "misrouted: connection dialled for id %d delivered the token of id %d [mix=%s]", id, b[0], mix)
+								}
+							})
+							<-ch
+						}))
+					}
+					tok(sb, cb, lc.r.dom.Name, "host", 41)
+					tok(cb, sb, "host", lc.r.dom.Name, 42)
+					d.goIn("host", "dispense0", dispense("dispense0"))
+					d.goIn("host", "dispense1", dispense("dispense1"))
 				case "dispense-kill":
 					d.goIn("host", "dispense0", dispense("dispense0"))
 					d.goIn("host", "dispense1", dispense("dispense1"))
@@ -221,7 +264,7 @@ func init() {
 		},
 		Instances: func(tier string) []explore.Params {
 			if tier == "c06" { // C06: every net/rpc Dispense reaches the server object created for it
-				return []explore.Params{{"mix": "dispense3:netrpc"}, {"mix": "nextid-mux"}}
+				return []explore.Params{{"mix": "dispense3:netrpc"}, {"mix": "nextid-mux"}, {"mix": "route-dispense:netrpc"}}
 			}
 			out := []explore.Params{{"mix": "nextid-mux"}, {"mix": "nextid-grpc"}}
 			for _, proto := range []string{"netrpc", "grpc", "grpcmux"} {
